@@ -301,3 +301,33 @@ Section DnsListP.
     apply dns_list_loop_ends. cbn [length]. lia.
   Qed.
 End DnsListP.
+
+(** * allocation of ParsePacket is bounded by the limit constant, whatever length is announced *)
+Theorem packet_prealloc_bounded stream : packet_prealloc stream <= 4 + max_packet.
+Proof.
+  unfold packet_prealloc. destruct (short 4 stream); [unfold max_packet; lia|].
+  destruct (le_num (firstn 4 stream) <? min_packet) eqn:E1; cbn [orb]; [unfold max_packet; lia|].
+  destruct (max_packet <? le_num (firstn 4 stream)) eqn:E2; [unfold max_packet; lia|].
+  apply N.ltb_ge in E2. lia.
+Qed.
+
+(* a successful parse allocated what was announced up front (plus the payload copy) *)
+Theorem parse_packet_alloc_ge H stream p rest a :
+  parse_packet H stream = Ok (p, rest, a) -> packet_prealloc stream <= a.
+Proof.
+  unfold parse_packet, packet_prealloc, min_packet.
+  destruct (short 4 stream); [discriminate|].
+  set (len := le_num (firstn 4 stream)).
+  destruct ((len <? 64) || (max_packet <? len)); [discriminate|].
+  assert (Hle : 4 + len <= 4 + len + (len - 64)) by lia.
+  set (A := 4 + len + (len - 64)) in *. set (P4 := 4 + len) in *.
+  destruct (max_alloc <? len); [discriminate|].
+  destruct (_ <? len); [discriminate|].
+  destruct (slice_to 32 _); cbn [bind]; try discriminate.
+  destruct (len <? 64); [discriminate|].
+  destruct (slice_to (len - 32) _); cbn [bind]; try discriminate.
+  destruct (slice_from 32 _); cbn [bind]; try discriminate.
+  destruct (slice_from _ _); cbn [bind]; try discriminate.
+  destruct (negb _); [discriminate|].
+  intros E. injection E as _ _ <-. exact Hle.
+Qed.
